@@ -1,4 +1,4 @@
 package checks
 
-// Worker is the entry point of sandboxed sub-process workers (C08/C09/C17).
-func Worker(args []string) int { return 2 }
+func c17Worker(tier, journal string) int { return 2 }
+func c17One(args []string) int           { return 2 }
